@@ -46,7 +46,7 @@ ASSUMPTIONS = [
     "a pristine twin rebuilt from the scenario is the reference for every deterministic query: same code, so agreement means history- and RNG-independence, not functional correctness (that is C01-C09, not claimed)",
     "for a 0-d array argument either a scalar or a 0-d array result is accepted; Python and NumPy scalars count as plain scalars",
 ]
-PROBES = ["caller_mutates_own_array", "caller_scribbles_result", "interrupt_fired", "reentrant_callback", "callback_raise", "swap_alias", "readonly_input", "zero_size_axis", "three_d_argument",
+PROBES = ["copy_roundtrip", "caller_mutates_own_array", "caller_scribbles_result", "interrupt_fired", "reentrant_callback", "callback_raise", "swap_alias", "readonly_input", "zero_size_axis", "three_d_argument",
           "scalar_argument", "noise_op", "elementwise_checked", "alias_checked", "cm_multiclass", "cm_stacked", "group_object",
           "empty_class", "int_scores", "twin_checked", "exception_agreed"]
 
@@ -174,6 +174,8 @@ def generate(rnd, tier):
         r = rnd.random()
         if r < 0.03:
             op = {"client": op["client"], "op": "reseed", "seed": rnd.randrange(2**31)}
+        elif r < 0.05:
+            op.update({"op": "copy_roundtrip", "how": rnd.choice(["copy", "deepcopy", "pickle"])})
         elif kind in ("scores", "group") and r < 0.12:
             op.update({"op": "noise", "what": rnd.choice(["sample", "sample", "metric", "ci"]),
                        "cfg": {"sampling_method": rnd.choice(["replacement", "single_pass", "dynamic"]),
@@ -253,6 +255,8 @@ def generate(rnd, tier):
                 op["faults"] = [{"kind": "interrupt", "frac": round(rnd.random(), 3), "exc": rnd.choice(["SimInterrupt", "SimInterrupt", "MemoryError"])}]
         if op["op"] in ("cm", "rate", "thr_at", "thr_at_metric", "group_rate", "group_cm"):
             op["idx"] = [rnd.randrange(1000) for _ in range(rnd.randint(1, 3))]
+        if op["op"] in ("cm", "rate", "thr_at") and kind in ("scores", "group"):
+            op["call"] = rnd.choice(["inst_pos", "inst_pos", "inst_kw", "class_pos"])
         ops.append(op)
         if op["op"] in ("cm", "rate", "thr_at", "group_rate", "group_cm") and rnd.random() < 0.15:
             # the caller reuses its buffer (writes new values into the same array) or writes into the result it
@@ -349,11 +353,21 @@ def evaluate(o, op, args, state, L=None):
     L = L or lib()
     k = op["op"]
     x = args.get(op.get("x")) if "x" in op else None
+    style = op.get("call", "inst_pos")
     if k == "cm":
-        return o.cm(x)
+        return type(o).cm(o, x) if style == "class_pos" else o.cm(threshold=x) if style == "inst_kw" else o.cm(x)
     if k == "rate":
+        if style == "class_pos":
+            return getattr(type(o), op["name"])(o, x)
+        if style == "inst_kw":
+            return getattr(o, op["name"])(threshold=x)
         return getattr(o, op["name"])(x)
     if k == "thr_at":
+        if style == "class_pos":
+            return getattr(type(o), op["name"])(o, x, method=op["method"])
+        if style == "inst_kw":
+            # the first parameter is named after the metric: threshold_at_tpr(tpr=...), threshold_at_far(far=...)
+            return getattr(o, op["name"])(**{op["name"][len("threshold_at_"):]: x}, method=op["method"])
         return getattr(o, op["name"])(x, method=op["method"])
     if k == "thr_at_metric":
         metric = op["metric"]
@@ -655,15 +669,37 @@ def execute(scn, ctx):
         fl = op.get("faults")
         # an op generated for another kind of object (pool indices shift while shrinking) is skipped
         applicable = {
-            "scores": {"cm", "rate", "thr_at", "thr_at_metric", "eer", "auc", "swap", "props", "pointwise_cm", "roc", "noise"},
-            "group": {"cm", "rate", "group_rate", "group_cm", "group_getitem", "groupwise", "noise", "swap", "props"},
-            "cm": {"cm_metric", "cm_ci", "one_vs_all", "cm_getitem"},
+            "scores": {"cm", "rate", "thr_at", "thr_at_metric", "eer", "auc", "swap", "props", "pointwise_cm", "roc", "noise", "copy_roundtrip"},
+            "group": {"cm", "rate", "group_rate", "group_cm", "group_getitem", "groupwise", "noise", "swap", "props", "copy_roundtrip"},
+            "cm": {"cm_metric", "cm_ci", "one_vs_all", "cm_getitem", "copy_roundtrip"},
         }[kind]
         if k not in applicable or (k == "group_getitem" and not len(o.groups)):
             continue
         if k == "pointwise_cm" and (len(o.pos) + len(o.neg)) * max(1, int(np.size(args.get(op.get("x"))))) > 20000:
             continue  # keeps the per-sample matrix small even if a defective version broadcasts it quadratically
         fired_kinds = []
+        if k == "copy_roundtrip":
+            # the caller continues with a copy / a pickled-and-restored object: it must behave like the original
+            import copy as _copy
+            import pickle as _pickle
+            try:
+                c_ = {"copy": _copy.copy, "deepcopy": _copy.deepcopy, "pickle": lambda v: _pickle.loads(_pickle.dumps(v))}[op["how"]](o)
+                def _noflags(x):  # a copy of a read-only array is writable again: not a difference that matters here
+                    return json.dumps(M.fingerprint(x), default=str).replace("true", "_").replace("false", "_")
+
+                if _noflags(c_) != _noflags(o) or type(c_) is not type(o):
+                    viol.append({"invariant": "C10.twin_equal", "tags": tags,
+                                 "detail": f"{op['how']} of pool[{oi}] is not an equal object of the same type [op {step}]"})
+                else:
+                    pool[oi] = c_
+                    pool_fp[oi] = M.fingerprint(c_)
+                    probe("copy_roundtrip")
+            except Exception as e:  # noqa: BLE001
+                viol.append({"invariant": "C10.twin_equal", "tags": tags, "detail": f"{op['how']} of pool[{oi}] raised {type(e).__name__}: {e} [op {step}]"})
+            check_everything_unchanged(f"after {op['how']} [op {step}]", tags)
+            trace.append([step, op.get("client"), "copy_roundtrip", op["how"], oi])
+            sig.append("copy|" + op["how"])
+            continue
         if k == "swap":
             probe("swap_alias")
             s = o.swap()
